@@ -139,7 +139,7 @@ Check (C16_put_then_get :
   forall wc m L us1 u us2 q rk target,
   1 <= wc_ttl wc -> REC_LEN < V.C17.Model.max_size (wc_scfg wc) ->
   N.of_nat (length (us1 ++ u :: us2)) <= V.C17.Model.max_records (wc_scfg wc) ->
-  (u = UStoreRecord rk \/ exists q0 qr0 t0, u = UCmd q0 (UCPut qr0 rk) t0) ->
+  stores wc (fst (crun wc (w0 wc m L) us1)) u rk ->
   let w := fst (crun wc (w0 wc m L) (us1 ++ u :: us2)) in
   fst (cstep wc w (UCmd q (UCGet QOne rk) target)) =
   (w, [OPartial q (g_local (wc_g wc)) LOCAL_REC; OGetRecSuccess q])).
@@ -235,7 +235,7 @@ Check (C16_serve_after_put :
   forall wc m L us1 u us2 rk id target,
   1 <= wc_ttl wc -> REC_LEN < V.C17.Model.max_size (wc_scfg wc) ->
   N.of_nat (length (us1 ++ u :: us2)) <= V.C17.Model.max_records (wc_scfg wc) ->
-  (u = UStoreRecord rk \/ exists q0 qr0 t0, u = UCmd q0 (UCPut qr0 rk) t0) ->
+  stores wc (fst (crun wc (w0 wc m L) us1)) u rk ->
   let w := fst (crun wc (w0 wc m L) (us1 ++ u :: us2)) in
   inbound_read (w_st w) id = true ->
   reply_of wc w (UInReq id (IGetValue rk target)) = Some (true, seeds_of wc (w_rt w) target)).
